@@ -52,6 +52,12 @@ CHECKS.update({
  "C20": (E1, "Go race detector + runtime monitoring: the generated server built with -race is driven by 2/16/64 client goroutines (PRNG-chosen yields inside the stub); every concurrent exchange must be observationally equal to the sequential baseline of the same case; helper hammer (muxer, encoders, error encoder, pattern validator, samplers) with per-operation expected results; race log parsed", "Mixed valid/invalid/error cases against one mounted server per design, 3 rounds per concurrency level, overlap measured (max in flight, overlapping class pairs); race reports de-duplicated by function pair.", "A clean race-detector run means no race on the schedules exercised. " + E1NOTE),
 })
 
+CHECKS.update({
+ "C01": (E1, "runtime monitoring of the generation pipeline: generated designs (all steering profiles, naming-hostile alphabets, recursive/viewed/aliased types, gRPC and HTTP mappings, streaming, multipart, unions) printed as DSL and run in ONE FRESH PROCESS each through the real eval.RunDSL and generator.Generate (gen + example); the Go type checker (go build -gcflags=-e over every written package, stand-in pb/clue packages) is the independent judge; generator errors, panics (stack captured) and normalised diagnostics per generated-file role are the recorded events",
+         "Per accepted design: no generator error, no panic, no type-check diagnostic in any written package (gen/..., example mains and service skeletons). Diagnostics are normalised and keyed by file role + trigger class of the triaged root cause.",
+         "'Compiles' is judged with stand-in *.pb.go (lab protoc) and goa.design/clue packages; diagnostics positioned inside a stand-in are infrastructure errors, not violations; plugins are outside the envelope."),
+})
+
 NOT_BUILT = "check not built yet in this session (planned, DESIGN.md §11); not claimed until it exists and is silent on the unchanged tree"
 NA = {}
 def hook_commits():
